@@ -46,3 +46,11 @@ for _n in _CHUNK_STALE:
     def _chunked(case, v):
         return isinstance(case, dict) and case.get("chunking") != "one"
     rule("C04", _n, None, "query/update chunks longer than one instance")(_chunked)
+
+
+# ---- cognitive dual strategies (C10, G16): update() with force_full_budget=False hands a *filtered*
+# candidate list to the budget manager while queried_indices index the unfiltered chunk
+for _n in _CHUNK_STALE[1:]:
+    def _cog_update(case, v):
+        return isinstance(case, dict) and case.get("chunking") != "one" and not case.get("ffb")
+    rule("C10", _n, "update-raises:IndexError", "force_full_budget=False and chunk longer than one instance")(_cog_update)
